@@ -265,4 +265,4 @@ def run_shard(item, stats):
 
 
 def exhaustive_claim(tier, total):
-    return {"exhaustive": True, "explanation": "exhaustive for the 12- and 16-bit formatter sub-domains only; 32-bit values and tables are sampled"}
+    return {"exhaustive": False, "explanation": "the space of the property as a whole is not finite; exhaustive only for the 12- and 16-bit formatter sub-domains only; 32-bit values and tables are sampled"}
